@@ -13,7 +13,9 @@ LEVEL = "exploration"
 TECHNIQUE = ("runtime monitoring: real BallDevice/Playfield/BallController on TimeTravelLoop against an independent "
              "physical world (coil commands in, raw switch reports out); equality oracle at rest points, range "
              "invariants after every loop iteration, room check at every launch")
-RULE = ("case = generated topology (trough 2-6 switches with pulse/enable coil; no/coil/mechanical/auto+manual plunger; "
+RULE = ("case = generated topology (trough 2-6 switches with pulse/enable coil, or Gottlieb-style entrance-counted "
+        "trough with entrance_switch_full_timeout whose filling ball rests on the entrance switch; 1- or 2-ball coil "
+        "launcher; no/coil/mechanical/auto+manual plunger; "
         "switch-, entrance- or hold-coil lock; drain device; playfield VUK feeding the plunger; count delays, "
         "timeouts) x physics seed x holds of the balldevice_<src>_ball_eject_attempt queue event (0..10 s, as diverters "
         "do) x unsolicited entries (loose ball rolls back into the plunger lane, lock/VUK shots) while a source waits "
@@ -45,6 +47,8 @@ ASSUMPTIONS = [
     "coil command) for H virtual seconds; a device that is not idle then is C05's subject",
     "handlers hold the ball_eject_attempt queue event for at most 10 virtual s; a ball that rolled into a purely "
     "mechanical plunger lane rests there until the world's player plunges it (<= 40 s)",
+    "Gottlieb trough: capacity == balls installed; the ball that fills it rests on the entrance switch until a ball "
+    "is ejected, then the switch opens 50-150 ms later; drains into it are spaced around settle_time / full timeout",
     "ball search is left at its default (disabled); a loose ball at a rest point sits still (no switch hits)",
 ]
 HORIZONS = {"rest_horizon_virtual_s": 200, "settle_cap_virtual_s": 4000}
